@@ -55,7 +55,10 @@ template<> struct TypeName<romea::core::HomogeneousCoordinates3f> {static const 
 template<> struct TypeName<romea::core::HomogeneousCoordinates3d> {static const char * n() {return "Homogeneous3d";} enum {id = 7};};
 
 static const char * const SET_KIND[] = {"uniform", "clustered", "collinear", "coplanar", "lattice",
-  "identical", "duplicates", "multiscale", "special_values"};
+  "identical", "duplicates", "multiscale", "special_values", "jittered_lattice"};
+// operations that give the caller's point set a new buffer without changing its points, count or order
+static const char * const REALLOC_OP[] = {"copy_and_swap", "shrink_to_fit", "reserve_bigger", "swap_old_block_kept",
+  "swap_old_block_overwritten", "move_assign_from_copy"};
 static const char * const QUERY_KIND[] = {"inside", "on_data_point", "near_data_point", "far_outside",
   "outside", "bbox_corner_face", "midpoint_tie", "extreme_far", "special_point"};
 static const char * const CALL_MODE[] = {"lvalue", "temporaries_const_object", "moved_query", "query_is_dataset_element",
@@ -259,7 +262,7 @@ static void run_set(vh::Ctx & c, vh::Rng & r)
     }
   }
   // ---------------------------------------------------------------- distribution
-  int kind = (int)r.range(0, 8);
+  int kind = (int)r.range(0, 9);
   double scale = r.coin(0.3) ? 1.0 : r.logu(1e-3, 1e3);
   double centre[3] = {0, 0, 0};
   bool large_offset = false, tiny_scale = false;
@@ -337,6 +340,23 @@ static void run_set(vh::Ctx & c, vh::Rng & r)
           }
           exact_dups = true;
         } break;
+      case 9: {  // lattice / regular sampling with a relative jitter of 1e-12..1e-8 of the step: near ties that
+                 // differ by far more than the rounding of a double but by much less than a float's epsilon
+          int m[3];
+          for (int a = 0; a < D; ++a) {m[a] = (int)r.range(1, 24);}
+          double step = r.coin() ? std::ldexp(1.0, (int)r.range(-3, 3)) : scale;
+          double jit = r.logu(1e-12, 1e-8);
+          double off[3];
+          for (int a = 0; a < D; ++a) {off[a] = step * (double)r.range(-8, 8) + (large_offset ? centre[a] : 0.0);}
+          bool line = r.coin(0.25);    // regularly sampled segment along the first axis
+          for (int i = 0; i < n; ++i) {
+            for (int a = 0; a < D; ++a) {
+              double cell = line ? (a == 0 ? (double)i : 0.0) : (double)r.range(0, m[a] - 1);
+              v[a] = off[a] + step * (cell + jit * r.normal());
+            }
+            pts[i] = mk<P>(v);
+          }
+        } break;
       case 5: {  // all identical
           for (int a = 0; a < D; ++a) {v[a] = centre[a] + scale * r.uni(-1, 1);}
           for (int i = 0; i < n; ++i) {pts[i] = mk<P>(v);}
@@ -411,6 +431,48 @@ static void run_set(vh::Ctx & c, vh::Rng & r)
              .raw("bbox_hi", vh::jvec(Eigen::Map<Eigen::VectorXd>(hi, D)))
              .raw("p0", vh::jvec(pts[0])).str();
     });
+
+  // ---------------------------------------------------------------- storage history of the indexed set
+  // The index refers to the caller's vector OBJECT.  Giving that vector a new buffer with the same
+  // points in the same order (between the build and the queries, or between two queries) must not
+  // change any answer: same points => same answers.
+  int realloc_op[2] = {-1, -1}, realloc_at[2] = {-1, -1};
+  if (r.coin(0.35)) {
+    realloc_op[0] = (int)r.range(0, 5);
+    realloc_at[0] = r.coin() ? 0 : (int)r.range(1, NQ - 1);
+    if (r.coin(0.3)) {
+      static const int second[] = {0, 2, 3, 4, 5};
+      realloc_op[1] = second[r.range(0, 4)];
+      realloc_at[1] = (int)r.range(realloc_at[0], NQ - 1);
+    }
+    if (realloc_op[0] == 1) {pts.reserve((size_t)n + (size_t)r.range(1, 64) + (size_t)n / 2);}   // room to shrink later
+  }
+  std::vector<PointSet<P>> kept_blocks;      // swapped-out vectors that keep the old block alive
+  auto reallocate_storage = [&](int op, bool before_first_query) {
+      const void * before = static_cast<const void *>(pts.data());
+      switch (op) {
+        case 0: PointSet<P>(pts).swap(pts); break;                       // old block freed at once
+        case 1: pts.shrink_to_fit(); break;
+        case 2: pts.reserve(pts.capacity() * 2 + 16); break;
+        case 3:
+        case 4: {
+            kept_blocks.emplace_back(pts);
+            PointSet<P> & old = kept_blocks.back();
+            old.swap(pts);                                             // 'old' now owns the block the index was built on
+            if (op == 4) {   // other coordinates in the old block: a stale read gives a wrong answer, not an accidentally right one
+              for (int i = 0; i < n; ++i) {
+                P o = pts[n - 1 - i];
+                for (int a = 0; a < D; ++a) {o[a] = static_cast<S>((double)o[a] + 0.37 * ext);}
+                old[i] = o;
+              }
+            }
+          } break;
+        default: pts = PointSet<P>(pts); break;
+      }
+      c.cat(std::string("realloc_") + REALLOC_OP[op]);
+      c.cat(before_first_query ? "realloc_between_build_and_first_query" : "realloc_between_two_queries");
+      if (static_cast<const void *>(pts.data()) != before) {c.count("reallocations_that_changed_the_buffer_address");}
+    };
 
   // ---------------------------------------------------------------- the index under test
   std::unique_ptr<KdTree<P>> holder(new KdTree<P>(pts));
@@ -520,10 +582,14 @@ static void run_set(vh::Ctx & c, vh::Rng & r)
         {"set_kind", (double)kind}, {"query_kind", (double)qk}, {"scale", scale},
         {"reused_buffers", reuse ? 1.0 : 0.0}, {"large_offset", large_offset ? 1.0 : 0.0},
         {"tiny_scale", tiny_scale ? 1.0 : 0.0}, {"call_mode", (double)cm}, {"sibling", sibling ? 1.0 : 0.0},
-        {"history_calls", (double)history}};
+        {"history_calls", (double)history}, {"realloc_op", (double)realloc_op[0]}, {"realloc_op2", (double)realloc_op[1]},
+        {"realloc_at", (double)realloc_at[0]}};
     };
 
   for (int q = 0; q < NQ; ++q) {
+    for (int e = 0; e < 2; ++e) {
+      if (realloc_op[e] >= 0 && realloc_at[e] == q) {reallocate_storage(realloc_op[e], q == 0);}
+    }
     // ------------------------------------------------------------ query point
     int qk;
     {
@@ -665,7 +731,8 @@ static void run_set(vh::Ctx & c, vh::Rng & r)
         [&]() {return base_params(qk, reuse, cm, false);},
         [&](vh::J & j) {
           j.s("type", tname).s("set", SET_KIND[kind]).s("query", QUERY_KIND[qk]).s("call", CALL_MODE[cm])
-          .f("query_no", q).boolean("reused_buffers", reuse).f("history_calls", history);
+          .f("query_no", q).boolean("reused_buffers", reuse).f("history_calls", history)
+          .s("storage_reallocated_by", realloc_op[0] < 0 ? "nothing" : REALLOC_OP[realloc_op[0]]).f("reallocated_before_query_no", realloc_at[0]);
         });
     Qprev = Q;
 
